@@ -16,7 +16,11 @@
 from warnings import warn
 import unified_planning as up
 from unified_planning.model.expression import ConstantExpression
-from unified_planning.exceptions import UPProblemDefinitionError, UPValueError
+from unified_planning.exceptions import (
+    UPProblemDefinitionError,
+    UPTypeError,
+    UPValueError,
+)
 from typing import Optional, List, Dict, Union, Iterable, Set
 
 
@@ -46,6 +50,14 @@ class FluentsSetMixin:
         self._initial_defaults: Dict["up.model.types.Type", "up.model.fnode.FNode"] = {}
         for k, v in initial_defaults.items():
             (v_exp,) = self.environment.expression_manager.auto_promote(v)
+            if not v_exp.is_constant():
+                raise UPTypeError(
+                    f"The default initial value {v_exp} of type {k} is not a constant."
+                )
+            if not k.is_compatible(v_exp.type):
+                raise UPTypeError(
+                    f"The default initial value {v_exp} is not compatible with type {k}."
+                )
             self._initial_defaults[k] = v_exp
         # The field initial default optionally associates a type to a default value. When a new fluent is
         # created with no explicit default, it will be associated with the initial-default of his type, if any.
@@ -144,11 +156,22 @@ class FluentsSetMixin:
                 raise UPProblemDefinitionError(msg)
             else:
                 warn(msg)
-        self._fluents.append(fluent)
+        v_exp = None
         if not default_initial_value is None:
             (v_exp,) = self.environment.expression_manager.auto_promote(
                 default_initial_value
             )
+            # check the value before anything is added to the problem
+            if not v_exp.is_constant():
+                raise UPTypeError(
+                    f"The default initial value {v_exp} of fluent {fluent.name} is not a constant."
+                )
+            if not fluent.type.is_compatible(v_exp.type):
+                raise UPTypeError(
+                    f"The default initial value {v_exp} is not compatible with the type of fluent {fluent.name}."
+                )
+        self._fluents.append(fluent)
+        if v_exp is not None:
             self._fluents_defaults[fluent] = v_exp
         elif fluent.type in self._initial_defaults:
             self._fluents_defaults[fluent] = self._initial_defaults[fluent.type]
